@@ -9,8 +9,8 @@ import vloop
 
 LEVEL = "proof"
 MANIFEST = dict(
-    text='Machine-checked Lean 4 proof, for every call sequence of any length and interleaving, that both counter implementations (translated statement-by-statement from the source on every run) hand out 1+k%191 / 192+k%64 (closed form), stay in range, are successors in their own cycle, and that every call site picks the right counter (decide over the regenerated call-site table). Tie: translator + full differential sweep of every reachable counter state against both real objects; wire clause checked on datagrams built by the real clients.',
-    note='Trusted: Lean kernel; axioms propext/Classical.choice/Quot.sound only; harness/translate.py+py2lean.py (cross-checked by the sweep); atomicity of threading.Lock (with-lock is checked syntactically; real-thread hammer in thorough tier is a test, not a proof).',
+    text='Machine-checked Lean 4 proof, for every call sequence of any length and interleaving, that both counter implementations (translated statement-by-statement from the source on every run) hand out 1+k%191 / 192+k%64 (closed form), stay in range, are successors in their own cycle; that for ANY number of threads, any calls per thread and ANY scheduler interleaving the micro-operations of the threaded counter (acquire / snapshot / store / release, shape regenerated from the source) the numbers handed out are exactly those of one sequential caller (threads_serialise, by an inductive invariant; a snapshot taken outside the lock provably duplicates); and that every call site picks the right counter (decide over the regenerated call-site table). Tie: translator + full differential sweep of every reachable counter state against both real objects; wire clause checked on datagrams built by the real clients.',
+    note='Trusted: Lean kernel; axioms propext/Classical.choice/Quot.sound only; harness/translate.py+py2lean.py (cross-checked by the sweep); atomicity of threading.Lock; the abstraction of a lock region to one snapshot read + one write (the lock shape is extracted by the translator and cross-checked by pausing a real thread before every source line of the counter while a second real thread makes a call).',
     technique='Lean 4 induction over call sequences on source-translated definitions + decide over generated call-site table',
     design='5/C16',
 )
@@ -258,6 +258,95 @@ def search_threads(ctx):
     ctx.cov["real_thread_calls"] = 8 * per
 
 
+def _paused_schedules(start, kind_a, kind_b, wait=0.05):
+    """Two REAL threads on the real GeckoUdpSocket counter. Thread A is stopped before each source line of
+    get_and_increment_sequence_counter in turn (line-granular pre-emption via sys.settrace); while it is stopped thread B
+    attempts one whole call (if B blocks on the lock, A is resumed first). Yields (pause_line_offset, rA, rB, final counters)."""
+    import sys
+    from geckolib.driver.udp_socket import GeckoUdpSocket
+    code = GeckoUdpSocket.get_and_increment_sequence_counter.__code__
+    k = 0
+    while k < 40:
+        s = GeckoUdpSocket()
+        s._sequence_counter_protocol, s._sequence_counter_command = start
+        paused, resume = threading.Event(), threading.Event()
+        seen = {"n": 0, "line": None}
+        res = {}
+
+        def tracer(frame, event, arg):
+            if frame.f_code is not code:
+                return None
+
+            def local(frame, event, arg):
+                if event == "line":
+                    if seen["n"] == k:
+                        seen["line"] = frame.f_lineno - code.co_firstlineno
+                        paused.set()
+                        resume.wait(5)
+                    seen["n"] += 1
+                return local
+            return local
+
+        def run_a():
+            sys.settrace(tracer)
+            try:
+                res["a"] = s.get_and_increment_sequence_counter(kind_a)
+            except Exception as e:  # noqa
+                res["a"] = f"raised {type(e).__name__}"
+            finally:
+                sys.settrace(None)
+                paused.set()
+
+        def run_b():
+            try:
+                res["b"] = s.get_and_increment_sequence_counter(kind_b)
+            except Exception as e:  # noqa
+                res["b"] = f"raised {type(e).__name__}"
+        ta = threading.Thread(target=run_a, daemon=True)
+        ta.start()
+        paused.wait(5)
+        if seen["line"] is None:        # A finished without reaching line event k: every pause point has been tried
+            ta.join(5)
+            return
+        tb = threading.Thread(target=run_b, daemon=True)
+        tb.start()
+        tb.join(wait)                   # still alive = blocked on the lock held by A
+        b_blocked = tb.is_alive()
+        resume.set()
+        ta.join(5)
+        tb.join(5)
+        yield seen["line"], b_blocked, res.get("a"), res.get("b"), (s._sequence_counter_protocol, s._sequence_counter_command)
+        k += 1
+
+
+def search_thread_schedules(ctx):
+    """failing-input search for the concurrent-callers clause on the REAL threaded counter (no model involved): every
+    line-granular pre-emption point of one call, with a second caller running a whole call there"""
+    n = 0
+    points = set()
+    for start in ((0, 191), (190, 254), (191, 255), (57, 200)):
+        for ka, kb in ((False, False), (True, True), (False, True), (True, False)):
+            for line, blocked, ra, rb, fin in _paused_schedules(start, ka, kb):
+                n += 1
+                ctx.count("evaluations")
+                points.add((line, blocked))
+                x = {False: start[0], True: start[1]}
+                if ka == kb:
+                    first, second = _succ(ka, x[ka]), _succ(ka, _succ(ka, x[ka]))
+                    ok = sorted([str(ra), str(rb)]) == sorted([str(first), str(second)])
+                    exp_fin = (second, start[1]) if not ka else (start[0], second)
+                else:
+                    ok = ra == _succ(ka, x[ka]) and rb == _succ(kb, x[kb])
+                    exp_fin = (_succ(False, start[0]), _succ(True, start[1]))
+                if not ok or fin != exp_fin:
+                    ctx.violation(f"threads:schedule:{'cmd' if ka else 'proto'}+{'cmd' if kb else 'proto'}:pause-at-line+{line}",
+                                  {"kind": "thread-schedule", "start": list(start), "kind_a": ka, "kind_b": kb, "pause_line_offset": line},
+                                  f"two distinct successors; counters end at {exp_fin}", f"A got {ra}, B got {rb}, counters {fin}")
+                    return
+    ctx.cov["thread_schedules_run"] = n
+    ctx.cov["thread_pause_points"] = sorted(f"line+{l}{' (B blocked on the lock)' if b else ''}" for l, b in points)
+
+
 def run(ctx):
     st = translate.run(["SeqCounter"])
     ctx.cov["translator"] = st
@@ -270,6 +359,7 @@ def run(ctx):
         correspondence(ctx, seqs)
     search_counters(ctx, seqs)
     search_wire(ctx)
+    search_thread_schedules(ctx)
     if not ctx.quick:
         search_threads(ctx)
     ctx.cov["distinct_nontrivial"] = ctx.cov.get("distinct_counter_states_visited", 0)
@@ -291,5 +381,18 @@ def replay(inp):
         ops = [(l.split()[0], l.split()[1] == "t") for l in inp["ops"]]
         search_counters(ctx, [("replay", ops)])
         return bool(ctx.violations), ctx.violations[0]["observed"] if ctx.violations else "ok"
+    if inp.get("kind") == "thread-schedule":
+        for line, blocked, ra, rb, fin in _paused_schedules(tuple(inp["start"]), inp["kind_a"], inp["kind_b"]):
+            if line == inp["pause_line_offset"]:
+                same = inp["kind_a"] == inp["kind_b"]
+                bad = (ra == rb) if same else False
+                x = {False: inp["start"][0], True: inp["start"][1]}
+                if not same:
+                    bad = ra != _succ(inp["kind_a"], x[inp["kind_a"]]) or rb != _succ(inp["kind_b"], x[inp["kind_b"]])
+                else:
+                    k = inp["kind_a"]
+                    bad = sorted([str(ra), str(rb)]) != sorted([str(_succ(k, x[k])), str(_succ(k, _succ(k, x[k])))])
+                return bad, f"A got {ra}, B got {rb}, counters {fin}"
+        return False, "pause point not reached"
     search_threads(ctx)
     return bool(ctx.violations), ctx.violations[0]["observed"] if ctx.violations else "ok"
